@@ -11,8 +11,12 @@ U2 = ["u1", "u2"]
 C0, C02 = ["channel-0"], ["channel-0", "channel-2"]
 
 
-def consts(chan, amt, maxseq, maxin, fx=1, coin=1, erc=1, esc=1, pool=2):
-    return dict(Acct=U2, Chan=chan, Amt=amt, MaxSeq=maxseq, MaxIn=maxin, InitFx=fx, InitCoin=coin, InitErc=erc, InitEsc=esc, InitPool=pool)
+FORMS, DNS, MEMOS = ["bech", "hex"], ["fx", "tb", "t1", "vx"], ["none", "junk", "good", "goodAs", "bad"]
+
+
+def consts(chan, amt, maxseq, maxin, fx=1, coin=1, erc=1, esc=1, pool=4, form=FORMS, dn=DNS, memo=MEMOS):
+    return dict(Acct=U2, Chan=chan, Amt=amt, MaxSeq=maxseq, MaxIn=maxin, InitFx=fx, InitCoin=coin, InitErc=erc, InitEsc=esc, InitPool=pool,
+                Form=form, Dn=dn, Memo=memo)
 
 
 def harness(c):
@@ -26,22 +30,26 @@ def cfg(name, tiers, c, shards=14, rej_sample=0, **kw):
 
 
 DEV = consts(C0, [1], 1, 1)
-Q1 = consts(C0, [1], 2, 1)
+Q1 = consts(C0, [1], 2, 1, memo=["none", "good", "bad"])
 Q2 = consts(C0, [1], 1, 2)
-T1 = consts(C0, [1, 2], 2, 2, fx=2, pool=3)
-T2 = consts(C02, [1], 1, 1)
+M1 = consts(C0, [1, 2], 2, 2, fx=2, pool=4)
+M2 = consts(C02, [1], 1, 1, pool=2)
+T1 = consts(C0, [1], 2, 2)
+T2 = consts(C0, [1, 2], 1, 1, fx=2, coin=2, erc=2, esc=2, pool=8)
+T3 = consts(C02, [1], 1, 1, pool=2, dn=["fx", "tb", "t1"], memo=["none", "good", "bad"])
 
 MC = [
     dict(name="dev", tiers=["dev"], consts=DEV),
-    dict(name="one", tiers=["quick", "thorough"], consts=T1),
-    dict(name="two", tiers=["quick", "thorough"], consts=T2),
+    dict(name="one", tiers=["quick", "thorough"], consts=M1),
+    dict(name="two", tiers=["quick", "thorough"], consts=M2),
 ]
 GEN = [
     cfg("dev", ["dev"], DEV, rej_sample=3),
     cfg("out", ["quick"], Q1, rej_sample=3),
     cfg("in", ["quick"], Q2, rej_sample=3),
     cfg("oneT", ["thorough"], T1, shards=16),
-    cfg("twoT", ["thorough"], T2, shards=16),
+    cfg("amtT", ["thorough"], T2, shards=16),
+    cfg("twoT", ["thorough"], T3, shards=16),
 ]
 
 ASSUMPTIONS = [
